@@ -739,6 +739,59 @@ theorem G_eq_returned_cost (s : List ℕ) (N : ℕ) (h p : ℕ → ℝ) (hv : Va
   refine List.map_congr_left (fun ab hab => ?_)
   exact (bestRep_spec h p ab.1 ab.2 (groupsFrom_nonempty 0 s N hv ab hab)).2.1
 
+/-! ## 5b. zero-strength layers (empty bins of a measured profile) -/
+
+/-- the Python-style cost loop is the `Finset` sum `Σ_{j ∈ [a,b)} p_j |h_j − h_g|` (Eq. 7 of Saxenhuber et al.) -/
+theorem repCost_real (h p : ℕ → ℝ) (a b g : ℕ) :
+    repCost h p a b g = ∑ j ∈ Finset.Ico a b, p j * |h j - h g| := by
+  unfold repCost
+  rw [sumTo_real, Finset.sum_Ico_eq_sum_range]
+  simp only [RealTransc.abs_eq]
+
+/-- **a zero-strength layer at either end of a group costs nothing**, whatever the representative `g` (in the group or not):
+dropping it as the LAST layer (`[a, k+1)` versus `[a, k)`) or as the FIRST layer (`[k, b)` versus `[k+1, b)`) leaves the
+representative cost unchanged.  No hypothesis on `a`, `b` is needed: for `k < a` resp. `b ≤ k` both sides are empty sums. -/
+theorem repCost_zero_layer (h p : ℕ → ℝ) (a b k g : ℕ) (hp : p k = 0) :
+    repCost h p a (k + 1) g = repCost h p a k g ∧ repCost h p k b g = repCost h p (k + 1) b g := by
+  simp only [repCost_real]
+  constructor
+  · rcases le_or_gt a k with hak | hak
+    · rw [Finset.sum_Ico_succ_top hak]; simp [hp]
+    · rw [Finset.Ico_eq_empty_of_le (by omega), Finset.Ico_eq_empty_of_le (by omega)]
+  · rcases lt_or_ge k b with hkb | hkb
+    · rw [Finset.sum_eq_sum_Ico_succ_bot hkb]; simp [hp]
+    · rw [Finset.Ico_eq_empty_of_le hkb, Finset.Ico_eq_empty_of_le (by omega)]
+
+/-- the same two statements for the strength `p[group].sum()` of a group -/
+theorem groupSum_zero_layer (p : ℕ → ℝ) (a b k : ℕ) (hp : p k = 0) :
+    groupSum p a (k + 1) = groupSum p a k ∧ groupSum p k b = groupSum p (k + 1) b := by
+  simp only [groupSum_real]
+  constructor
+  · rcases le_or_gt a k with hak | hak
+    · rw [Finset.sum_Ico_succ_top hak]; simp [hp]
+    · rw [Finset.Ico_eq_empty_of_le (by omega), Finset.Ico_eq_empty_of_le (by omega)]
+  · rcases lt_or_ge k b with hkb | hkb
+    · rw [Finset.sum_eq_sum_Ico_succ_bot hkb]; simp [hp]
+    · rw [Finset.Ico_eq_empty_of_le hkb, Finset.Ico_eq_empty_of_le (by omega)]
+
+/-- the cost of a group only sees the layers that carry turbulence: the sum may be restricted to `p j ≠ 0` -/
+theorem repCost_support (h p : ℕ → ℝ) (a b g : ℕ) :
+    repCost h p a b g = ∑ j ∈ (Finset.Ico a b).filter (fun j => p j ≠ 0), p j * |h j - h g| := by
+  rw [repCost_real, Finset.sum_filter]
+  refine Finset.sum_congr rfl (fun j _ => ?_)
+  by_cases hj : p j = 0 <;> simp [hj]
+
+/-- **where a zero-strength layer goes changes neither the sums nor the cost**: for adjacent groups `[a, k+1), [k+1, b)`
+versus `[a, k), [k, b)` with `p k = 0` the two group strengths are pairwise equal and, for FIXED representatives `g1`, `g2`
+(any layers — in particular `g1 ∈ [a, k)`, `g2 ∈ [k+1, b)`, which lie in their group under both splittings), the total cost
+is the same.  (With the representatives re-optimised the two costs can differ: layer `k` itself is a candidate of the first
+group in one splitting and of the second group in the other.) -/
+theorem moving_zero_layer_keeps_sums_and_cost (h p : ℕ → ℝ) (a k b g1 g2 : ℕ) (hp : p k = 0) :
+    groupSum p a (k + 1) = groupSum p a k ∧ groupSum p (k + 1) b = groupSum p k b ∧
+    repCost h p a (k + 1) g1 + repCost h p (k + 1) b g2 = repCost h p a k g1 + repCost h p k b g2 := by
+  refine ⟨(groupSum_zero_layer p a b k hp).1, (groupSum_zero_layer p a b k hp).2.symm, ?_⟩
+  rw [(repCost_zero_layer h p a b k g1 hp).1, (repCost_zero_layer h p a b k g2 hp).2]
+
 /-! ## 6. GCTM (the optimiser is external) -/
 
 theorem minfunc_real (L : ℕ) (hc cc mom0 : ℕ → ℝ) :
